@@ -145,6 +145,7 @@ fixed('F12', 'C05', 'fe2de03', 'an optional task with work_amount > 0 and a requ
 fixed('F09', 'C05', '93ef46e', 'WorkLoad(W, {(3,6): 5}, max) rejected an 8-long task at 1 whose load in the window is 3: the three overlap cases that match a covering interval ask for three different values')
 fixed('F29', 'C05', '322c6d3', 'TasksDontOverlap rejected two zero-duration tasks at the same instant (Xor of the two orders)')
 fixed('F31', 'C05', '30d6fcd', 'UnorderedTaskGroup / OrderedTaskGroup with a time window could not contain an optional task left unscheduled (start >= group start asserted for its negative date)')
+fixed('F44', 'C15', '66057eb', "logics='QF_LIA' (any logic without arrays) on a problem with a NonConcurrentBuffer: z3.SolverFor ignored the array assertions of the buffer level; a task unloading an empty buffer at instant 0 was scheduled (levels [0, 0, 0]) while the default solver answers unsat (corpus/C15/F44.json)")
 fixed('F33', 'C10', '0f12cf3', 'IndicatorTarget / IndicatorBounds with optional=True were enforced even when not applied (assertion appended directly instead of through set_z3_assertions): an optional target that cannot be met made the problem unsatisfiable')
 json.dump({'findings': F}, open('/verif/known_findings.json', 'w'), indent=1)
 print(len(F), 'findings written')
